@@ -67,3 +67,12 @@ claim("C04",
       "(unitarity of numpy's FFT is assumed, bounded probe) and the Toeplitz NUFFT (accuracy clause, bounded probe with tolerance).",
       "As C01; Toeplitz-embedded NUFFT normal operator and FFT unitarity are not decided deductively.",
       "contract-based deductive verification (symbolic execution, linear forms, z3)")
+
+claim("C11",
+      "For soft/hard thresholding, L1Reg, L2Reg (bias, inner prox), L2Proj (axes, bias), LInfProj, BoxConstraint, Conj, Stack, UnitaryTransform, NoOp "
+      "and Prox.__call__ the real bodies are executed on value arrays with symbolic extents and the optimality condition / closed form of the "
+      "minimiser is proved per element in real/complex arithmetic (soft threshold through a case-split arithmetic lemma); output shape == input shape; "
+      "shape mismatches rejected. L1Proj: shape and soft-threshold form; PsdProj: eigh contract (static).",
+      "Moreau/separable-sum/unitary-change-of-variables/Cauchy-Schwarz/spectral theorem cited; l1_proj threshold search and complex BoxConstraint bounded only; "
+      "numba.vectorize = elementwise map (A-numba); floats as reals.",
+      "contract-based deductive verification (symbolic execution of the real bodies on value arrays; z3 incl. nlsat on the relaxed VC)")
